@@ -19,17 +19,18 @@ import Gozod.Proofs.C08Methods
 namespace Gozod.C08
 open Gozod.Store Gozod.StoreC08
 
-def WfO (σ : Store) (x : OSchema) : Prop := WfS σ x.s ∧ ∀ l ∈ optLoc x.exc, l < σ.next
+def WfO (σ : Store) (x : OSchema) : Prop :=
+  WfS σ x.s ∧ (∀ l ∈ optLoc x.exc, l < σ.next) ∧ (∀ l ∈ optLoc x.req, l < σ.next)
 
 /-- **obsO_frame** -/
 theorem obsO_frame {σ σ' : Store} (x : OSchema) (hw : WfO σ x) (he : ExtFrom σ.next σ σ') :
     obsO σ'.heap x = obsO σ.heap x := by
-  simp only [obsO, obs_frame x.s hw.1 he]
-  congr 1
-  exact readVals_congr x.exc (fun l hl => he.2 l (hw.2 l hl))
+  simp only [obsO, obs_frame x.s hw.1 he, readVals_congr x.exc (fun l hl => he.2 l (hw.2.1 l hl)),
+    readVals_congr x.req (fun l hl => he.2 l (hw.2.2 l hl))]
 
 theorem wfo_frame {σ σ' : Store} (x : OSchema) (hw : WfO σ x) (he : ExtFrom σ.next σ σ') : WfO σ' x :=
-  ⟨wfs_frame x.s hw.1 he, fun l hl => Nat.lt_of_lt_of_le (hw.2 l hl) he.1⟩
+  ⟨wfs_frame x.s hw.1 he, fun l hl => Nat.lt_of_lt_of_le (hw.2.1 l hl) he.1,
+   fun l hl => Nat.lt_of_lt_of_le (hw.2.2 l hl) he.1⟩
 
 theorem lt4 (n : Nat) : n < n+1+1+1+1 ∧ n+1 < n+1+1+1+1 ∧ n+1+1 < n+1+1+1+1 ∧ n+1+1+1 < n+1+1+1+1 := by omega
 theorem le3 (n : Nat) : n ≤ n+1+1+1 := by omega
@@ -56,31 +57,31 @@ theorem objConstruct_spec (σ : Store) (kind : Nat) (sh : ShapeV) (cks : List Na
     · exact (lt4 _).2.1
     · exact (lt4 _).2.2.1
   · intro h; simp only at h ⊢; exact h
-  · intro l hl; simp [optLoc] at hl
+  · exact ⟨fun l hl => by simp [optLoc] at hl, fun l hl => by simp [optLoc] at hl⟩
   · simp only [alloc]; exact le3 _
 
-/-- Clone + `newObjectInternals` + field updates (+ a fresh exception set). -/
+/-- Clone + `newObjectInternals` + field updates (+ fresh key sets). -/
 theorem objDerive_spec (cfg : Cfg) (hcfg : cfg.cloneBagAlways = true) (σ : Store) (recv : OSchema) (v : ObjV)
-    (exc : Option (Option (List Nat))) (hc : BagClosed σ) (hw : WfO σ recv) :
-    ExtFrom σ.next σ (objDerive cfg σ recv v exc).1 ∧ BagClosed (objDerive cfg σ recv v exc).1 ∧
-    WfO (objDerive cfg σ recv v exc).1 (objDerive cfg σ recv v exc).2 ∧
-    σ.next ≤ (objDerive cfg σ recv v exc).2.s.self := by
+    (exc req : SlotAct) (hc : BagClosed σ) (hw : WfO σ recv) :
+    ExtFrom σ.next σ (objDerive cfg σ recv v exc req).1 ∧ BagClosed (objDerive cfg σ recv v exc req).1 ∧
+    WfO (objDerive cfg σ recv v exc req).1 (objDerive cfg σ recv v exc req).2 ∧
+    σ.next ≤ (objDerive cfg σ recv v exc req).2.s.self := by
   obtain ⟨he, hb, hws, hs⟩ := applyOp_spec cfg hcfg σ recv.s (.derive recv.s.flags [] none) hc hw.1 trivial rfl
-  unfold objDerive
-  match exc with
-  | none => exact ⟨he, hb, ⟨hws, fun l hl => Nat.lt_of_lt_of_le (hw.2 l hl) he.1⟩, hs⟩
-  | some none => exact ⟨he, hb, ⟨hws, fun l hl => by simp [optLoc] at hl⟩, hs⟩
-  | some (some ks) =>
-    have ha : ExtFrom σ.next (applyOp cfg σ recv.s (.derive recv.s.flags [] none)).1
-        (alloc (applyOp cfg σ recv.s (.derive recv.s.flags [] none)).1 (.vals ks)).1 := alloc_ext σ.next _ _ he.1
-    have ha' : ExtFrom (applyOp cfg σ recv.s (.derive recv.s.flags [] none)).1.next
-        (applyOp cfg σ recv.s (.derive recv.s.flags [] none)).1
-        (alloc (applyOp cfg σ recv.s (.derive recv.s.flags [] none)).1 (.vals ks)).1 := alloc_ext _ _ _ (Nat.le_refl _)
-    refine ⟨he.trans ha, bagClosed_alloc _ _ hb (cellOk_vals _ _), ⟨wfs_frame _ hws ha', ?_⟩, hs⟩
-    intro l hl
-    simp only [optLoc, List.mem_singleton] at hl
-    subst hl
-    simp [alloc]
+  have h1 : ∀ l ∈ optLoc recv.exc, l < (applyOp cfg σ recv.s (.derive recv.s.flags [] none)).1.next :=
+    fun l hl => Nat.lt_of_lt_of_le (hw.2.1 l hl) he.1
+  obtain ⟨e1, b1, l1⟩ := applySlot_spec σ.next _ recv.exc exc he.1 h1 hb
+  obtain ⟨e1', _, _⟩ := applySlot_spec (applyOp cfg σ recv.s (.derive recv.s.flags [] none)).1.next _ recv.exc exc
+    (Nat.le_refl _) h1 hb
+  have n1 := e1'.1
+  have h2 : ∀ l ∈ optLoc recv.req, l < (applySlot (applyOp cfg σ recv.s (.derive recv.s.flags [] none)).1 recv.exc exc).1.next :=
+    fun l hl => Nat.lt_of_lt_of_le (hw.2.2 l hl) (Nat.le_trans he.1 n1)
+  obtain ⟨e2, b2, l2⟩ := applySlot_spec σ.next _ recv.req req (Nat.le_trans he.1 n1) h2 b1
+  obtain ⟨e2', _, _⟩ := applySlot_spec (applySlot (applyOp cfg σ recv.s (.derive recv.s.flags [] none)).1 recv.exc exc).1.next _
+    recv.req req (Nat.le_refl _) h2 b1
+  simp only [objDerive]
+  refine ⟨he.trans (e1.trans e2), b2, ⟨wfs_frame _ (wfs_frame _ hws e1') e2', ?_, l2⟩, hs⟩
+  intro l hl
+  exact Nat.lt_of_lt_of_le (l1 l hl) e2'.1
 
 def _root_.Gozod.StoreC08.ObjOp.ok : ObjOp → Prop
   | .common op => Op.ok op ∧ op.isMetaSelf = false
@@ -100,17 +101,22 @@ theorem applyObjOp_spec (cfg : Cfg) (hcfg : cfg.cloneBagAlways = true) (σ : Sto
     simp only [applyObjOp, Option.map_eq_some_iff] at hr
     obtain ⟨sh, _, rfl⟩ := hr
     exact objConstruct_spec σ _ _ _ hc
-  | partialAll => simp only [applyObjOp, Option.some.injEq] at hr; subst hr; exact objDerive_spec cfg hcfg σ recv _ _ hc hw
-  | partialKeys ks => simp only [applyObjOp, Option.some.injEq] at hr; subst hr; exact objDerive_spec cfg hcfg σ recv _ _ hc hw
-  | requiredAll => simp only [applyObjOp, Option.some.injEq] at hr; subst hr; exact objDerive_spec cfg hcfg σ recv _ _ hc hw
-  | requiredKeys ks => simp only [applyObjOp, Option.some.injEq] at hr; subst hr; exact objDerive_spec cfg hcfg σ recv _ _ hc hw
-  | mode m => simp only [applyObjOp, Option.some.injEq] at hr; subst hr; exact objDerive_spec cfg hcfg σ recv _ _ hc hw
-  | catchall c => simp only [applyObjOp, Option.some.injEq] at hr; subst hr; exact objDerive_spec cfg hcfg σ recv _ _ hc hw
+  | partialAll => simp only [applyObjOp, Option.some.injEq] at hr; subst hr; exact objDerive_spec cfg hcfg σ recv _ _ _ hc hw
+  | partialKeys ks =>
+    simp only [applyObjOp] at hr
+    split at hr <;> (simp only [Option.some.injEq] at hr; subst hr; exact objDerive_spec cfg hcfg σ recv _ _ _ hc hw)
+  | requiredAll => simp only [applyObjOp, Option.some.injEq] at hr; subst hr; exact objDerive_spec cfg hcfg σ recv _ _ _ hc hw
+  | requiredKeys ks =>
+    simp only [applyObjOp] at hr
+    split at hr <;> (simp only [Option.some.injEq] at hr; subst hr; exact objDerive_spec cfg hcfg σ recv _ _ _ hc hw)
+  | mode m => simp only [applyObjOp, Option.some.injEq] at hr; subst hr; exact objDerive_spec cfg hcfg σ recv _ _ _ hc hw
+  | catchall c => simp only [applyObjOp, Option.some.injEq] at hr; subst hr; exact objDerive_spec cfg hcfg σ recv _ _ _ hc hw
   | common op =>
     simp only [applyObjOp, Option.some.injEq] at hr
     subst hr
     obtain ⟨he, hb, hws, hs⟩ := applyOp_spec cfg hcfg σ recv.s op hc hw.1 hok.1 hok.2
-    exact ⟨he, hb, ⟨hws, fun l hl => Nat.lt_of_lt_of_le (hw.2 l hl) he.1⟩, hs⟩
+    exact ⟨he, hb, ⟨hws, fun l hl => Nat.lt_of_lt_of_le (hw.2.1 l hl) he.1,
+      fun l hl => Nat.lt_of_lt_of_le (hw.2.2 l hl) he.1⟩, hs⟩
 
 structure InvO (σ : Store) (live : List OSchema) : Prop where
   closed : BagClosed σ
@@ -180,16 +186,17 @@ theorem c08o_hist (cfg : Cfg) (hcfg : cfg.cloneBagAlways = true) (ops : List (Na
 theorem objConstruct_content (σ : Store) (kind : Nat) (sh : ShapeV) (cks : List Nat) :
     (obsO (objConstruct σ kind sh cks).1.heap (objConstruct σ kind sh cks).2).base.shape = some sh ∧
     (obsO (objConstruct σ kind sh cks).1.heap (objConstruct σ kind sh cks).2).exc = none ∧
+    (obsO (objConstruct σ kind sh cks).1.heap (objConstruct σ kind sh cks).2).req = none ∧
     (obsO (objConstruct σ kind sh cks).1.heap (objConstruct σ kind sh cks).2).v = ⟨0, none, false⟩ := by
-  refine ⟨?_, rfl, rfl⟩
+  refine ⟨?_, rfl, rfl, rfl⟩
   simp [objConstruct, obsO, obs, readShape, alloc, upd]
 
 /-- Extend / SafeExtend / Merge: the result's Shape is the receiver's with the augmentation copied over it; default mode,
-    not partial, no exceptions, no catchall. -/
+    not partial, no exceptions, no required keys, no catchall. -/
 theorem extend_content (cfg : Cfg) (σ : Store) (recv : OSchema) (aug : ShapeV) (keep : Bool) (r : Store × OSchema)
     (hr : applyObjOp cfg σ recv (.extend aug keep) = some r) :
     (obsO r.1.heap r.2).base.shape = some (shapeCopy ((obsO σ.heap recv).base.shape.getD []) aug) ∧
-    (obsO r.1.heap r.2).exc = none ∧ (obsO r.1.heap r.2).v = ⟨0, none, false⟩ := by
+    (obsO r.1.heap r.2).exc = none ∧ (obsO r.1.heap r.2).req = none ∧ (obsO r.1.heap r.2).v = ⟨0, none, false⟩ := by
   simp only [applyObjOp, Option.some.injEq] at hr
   subst hr
   exact objConstruct_content _ _ _ _
@@ -197,7 +204,7 @@ theorem extend_content (cfg : Cfg) (σ : Store) (recv : OSchema) (aug : ShapeV) 
 theorem pick_content (cfg : Cfg) (σ : Store) (recv : OSchema) (ks : List Nat) (r : Store × OSchema)
     (hr : applyObjOp cfg σ recv (.pick ks) = some r) :
     ∃ sh, shapePick ((obsO σ.heap recv).base.shape.getD []) ks = some sh ∧ (obsO r.1.heap r.2).base.shape = some sh ∧
-      (obsO r.1.heap r.2).exc = none ∧ (obsO r.1.heap r.2).v = ⟨0, none, false⟩ := by
+      (obsO r.1.heap r.2).exc = none ∧ (obsO r.1.heap r.2).req = none ∧ (obsO r.1.heap r.2).v = ⟨0, none, false⟩ := by
   simp only [applyObjOp, Option.map_eq_some_iff] at hr
   obtain ⟨sh, hsh, rfl⟩ := hr
   exact ⟨sh, hsh, objConstruct_content _ _ _ _⟩
@@ -216,19 +223,29 @@ theorem omit_content (cfg : Cfg) (σ : Store) (recv : OSchema) (ks : List Nat) (
   · simp at hsh
 
 /-- a derived (cloned) object keeps kind and the Shape REFERENCE -/
-theorem objDerive_shape (cfg : Cfg) (σ : Store) (recv : OSchema) (v : ObjV) (exc : Option (Option (List Nat))) :
-    (objDerive cfg σ recv v exc).2.s.shape = recv.s.shape ∧ (objDerive cfg σ recv v exc).2.v = v := by
-  unfold objDerive
-  match exc with
-  | none => simp [applyOp, withInternals, clone]
-  | some none => simp [applyOp, withInternals, clone]
-  | some (some ks) => simp [applyOp, withInternals, clone]
+theorem objDerive_shape (cfg : Cfg) (σ : Store) (recv : OSchema) (v : ObjV) (exc req : SlotAct) :
+    (objDerive cfg σ recv v exc req).2.s.shape = recv.s.shape ∧ (objDerive cfg σ recv v exc req).2.v = v := by
+  simp [objDerive, applyOp, withInternals, clone]
 
-/-- the exception set of a `Partial(keys)` / `Required(fields)` result is the set the call computed -/
-theorem objDerive_exc (cfg : Cfg) (σ : Store) (recv : OSchema) (v : ObjV) (ks : List Nat) :
-    (obsO (objDerive cfg σ recv v (some (some ks))).1.heap (objDerive cfg σ recv v (some (some ks))).2).exc = some ks := by
-  simp [objDerive, obsO, readVals, alloc, upd]
+theorem readVals_alloc' (σ : Store) (c : List Nat) : readVals (alloc σ (.vals c)).1.heap (some (alloc σ (.vals c)).2) = some c := by
+  simp [readVals, alloc, upd]
 
+/-- a key set the call made itself reads back as what the call computed: RequiredKeys (allocated last) … -/
+theorem objDerive_req (cfg : Cfg) (σ : Store) (recv : OSchema) (v : ObjV) (exc : SlotAct) (ks : List Nat) :
+    (obsO (objDerive cfg σ recv v exc (.fresh ks)).1.heap (objDerive cfg σ recv v exc (.fresh ks)).2).req = some ks := by
+  simp only [objDerive, obsO, applySlot, readVals_alloc']
+
+/-- … and PartialExceptions, whatever is done to RequiredKeys afterwards -/
+theorem objDerive_exc (cfg : Cfg) (σ : Store) (recv : OSchema) (v : ObjV) (req : SlotAct) (ks : List Nat) :
+    (obsO (objDerive cfg σ recv v (.fresh ks) req).1.heap (objDerive cfg σ recv v (.fresh ks) req).2).exc = some ks := by
+  cases req with
+  | share => simp only [objDerive, obsO, applySlot, readVals_alloc']
+  | drop => simp only [objDerive, obsO, applySlot, readVals_alloc']
+  | fresh c =>
+    simp only [objDerive, obsO, applySlot]
+    simp [readVals, alloc, upd]
+
+/-- `Partial(keys)`: the exceptions are the Shape keys not listed; the object is partial; the Shape reference is kept -/
 theorem partialKeys_content (cfg : Cfg) (σ : Store) (recv : OSchema) (ks : List Nat) (hne : ks ≠ []) (r : Store × OSchema)
     (hr : applyObjOp cfg σ recv (.partialKeys ks) = some r) :
     (obsO r.1.heap r.2).exc = some ((shapeKeys ((obsO σ.heap recv).base.shape.getD [])).filter (fun k => !ks.contains k)) ∧
@@ -236,40 +253,59 @@ theorem partialKeys_content (cfg : Cfg) (σ : Store) (recv : OSchema) (ks : List
   have he : ks.isEmpty = false := by cases ks <;> simp_all
   simp only [applyObjOp, he, Bool.false_eq_true, if_false, Option.some.injEq] at hr
   subst hr
-  refine ⟨objDerive_exc _ _ _ _ _, ?_, (objDerive_shape _ _ _ _ _).1⟩
-  simp only [obsO]; exact (objDerive_shape _ _ _ _ _).2
+  refine ⟨objDerive_exc _ _ _ _ _ _, ?_, (objDerive_shape _ _ _ _ _ _).1⟩
+  simp only [obsO]; exact (objDerive_shape _ _ _ _ _ _).2
 
+/-- `Required(fields)` (since /repo 75cf747): RequiredKeys = the receiver's ∪ the fields, in a map the call made; the
+    partial flag, the exceptions REFERENCE and the Shape reference are the receiver's -/
 theorem requiredKeys_content (cfg : Cfg) (σ : Store) (recv : OSchema) (ks : List Nat) (hne : ks ≠ []) (r : Store × OSchema)
     (hr : applyObjOp cfg σ recv (.requiredKeys ks) = some r) :
-    (obsO r.1.heap r.2).exc = some ks ∧ (obsO r.1.heap r.2).v = { recv.v with isPartial := true } ∧
-    r.2.s.shape = recv.s.shape := by
+    (obsO r.1.heap r.2).req = some (keyUnion ((obsO σ.heap recv).req.getD []) ks) ∧ r.2.v = recv.v ∧
+    r.2.exc = recv.exc ∧ r.2.s.shape = recv.s.shape := by
   have he : ks.isEmpty = false := by cases ks <;> simp_all
   simp only [applyObjOp, he, Bool.false_eq_true, if_false, Option.some.injEq] at hr
   subst hr
-  refine ⟨objDerive_exc _ _ _ _ _, ?_, (objDerive_shape _ _ _ _ _).1⟩
-  simp only [obsO]; exact (objDerive_shape _ _ _ _ _).2
+  exact ⟨objDerive_req _ _ _ _ _ _, (objDerive_shape _ _ _ _ _ _).2, by simp [objDerive, applySlot],
+    (objDerive_shape _ _ _ _ _ _).1⟩
+
+/-- `Required()`: every Shape key -/
+theorem requiredAll_content (cfg : Cfg) (σ : Store) (recv : OSchema) (r : Store × OSchema)
+    (hr : applyObjOp cfg σ recv .requiredAll = some r) :
+    (obsO r.1.heap r.2).req = some (shapeKeys ((obsO σ.heap recv).base.shape.getD [])) ∧ r.2.v = recv.v ∧ r.2.exc = recv.exc := by
+  simp only [applyObjOp, Option.some.injEq] at hr
+  subst hr
+  exact ⟨objDerive_req _ _ _ _ _ _, (objDerive_shape _ _ _ _ _ _).2, by simp [objDerive, applySlot]⟩
 
 theorem mode_content (cfg : Cfg) (σ : Store) (recv : OSchema) (m : Nat) (r : Store × OSchema)
     (hr : applyObjOp cfg σ recv (.mode m) = some r) :
-    r.2.v = { recv.v with mode := m } ∧ r.2.s.shape = recv.s.shape ∧ r.2.exc = recv.exc := by
+    r.2.v = { recv.v with mode := m } ∧ r.2.s.shape = recv.s.shape ∧ r.2.exc = recv.exc ∧ r.2.req = recv.req := by
   simp only [applyObjOp, Option.some.injEq] at hr
   subst hr
-  exact ⟨(objDerive_shape _ _ _ _ _).2, (objDerive_shape _ _ _ _ _).1, by simp [objDerive]⟩
+  exact ⟨(objDerive_shape _ _ _ _ _ _).2, (objDerive_shape _ _ _ _ _ _).1, by simp [objDerive, applySlot], by simp [objDerive, applySlot]⟩
 
 theorem catchall_content (cfg : Cfg) (σ : Store) (recv : OSchema) (c : Loc) (r : Store × OSchema)
     (hr : applyObjOp cfg σ recv (.catchall c) = some r) :
-    r.2.v = { recv.v with catchall := some c } ∧ r.2.s.shape = recv.s.shape ∧ r.2.exc = recv.exc := by
+    r.2.v = { recv.v with catchall := some c } ∧ r.2.s.shape = recv.s.shape ∧ r.2.exc = recv.exc ∧ r.2.req = recv.req := by
   simp only [applyObjOp, Option.some.injEq] at hr
   subst hr
-  exact ⟨(objDerive_shape _ _ _ _ _).2, (objDerive_shape _ _ _ _ _).1, by simp [objDerive]⟩
+  exact ⟨(objDerive_shape _ _ _ _ _ _).2, (objDerive_shape _ _ _ _ _ _).1, by simp [objDerive, applySlot], by simp [objDerive, applySlot]⟩
 
 /-! ### value-level consequences -/
 
-/-- after `Partial(keys)` a listed key of the shape may be absent … -/
+/-- a field that `Required` recorded may not be absent, whatever its member schema or the partial state says -/
+theorem required_is_required (o : OObs) (memberOpt : Loc → Bool) (k : Nat) (m : Loc) (rq : List Nat)
+    (hr : o.req = some rq) (hk : rq.contains k = true) : fieldOptional o memberOpt k m = false := by
+  unfold fieldOptional
+  rw [hr, Option.getD_some, hk]
+  rfl
+
+/-- after `Partial(keys)` a listed key of the shape may be absent, unless `Required` recorded it … -/
 theorem partial_makes_optional (o : OObs) (memberOpt : Loc → Bool) (ks : List Nat) (k : Nat) (m : Loc) (keys : List Nat)
-    (hp : o.v.isPartial = true) (he : o.exc = some (keys.filter (fun x => !ks.contains x))) (hk : ks.contains k = true) :
+    (hp : o.v.isPartial = true) (he : o.exc = some (keys.filter (fun x => !ks.contains x))) (hk : ks.contains k = true)
+    (hq : (o.req.getD []).contains k = false) :
     fieldOptional o memberOpt k m = true := by
-  simp only [fieldOptional, hp, he, Option.getD_some, Bool.true_and, Bool.or_eq_true, Bool.not_eq_true']
+  simp only [fieldOptional, hq, Bool.false_eq_true, if_false, hp, he, Option.getD_some, Bool.true_and, Bool.or_eq_true,
+    Bool.not_eq_true']
   right
   simp only [List.contains_eq_mem, List.mem_filter, decide_eq_false_iff_not, not_and, Bool.not_eq_true',
     decide_eq_true_eq] at hk ⊢
@@ -280,12 +316,14 @@ theorem partial_makes_optional (o : OObs) (memberOpt : Loc → Bool) (ks : List 
 theorem partial_keeps_required (o : OObs) (memberOpt : Loc → Bool) (ks : List Nat) (k : Nat) (m : Loc) (keys : List Nat)
     (he : o.exc = some (keys.filter (fun x => !ks.contains x))) (hin : k ∈ keys) (hk : ks.contains k = false)
     (hm : memberOpt m = false) : fieldOptional o memberOpt k m = false := by
-  simp only [fieldOptional, hm, he, Option.getD_some, Bool.false_or, Bool.and_eq_false_imp, Bool.not_eq_eq_eq_not,
-    Bool.not_false]
-  intro _
-  have hk' : k ∉ ks := by simpa using hk
-  simp only [List.contains_eq_mem, List.mem_filter, decide_eq_true_eq]
-  exact ⟨hin, by simp [hk']⟩
+  unfold fieldOptional
+  split
+  · rfl
+  · simp only [hm, he, Option.getD_some, Bool.false_or, Bool.and_eq_false_imp, Bool.not_eq_eq_eq_not, Bool.not_false]
+    intro _
+    have hk' : k ∉ ks := by simpa using hk
+    simp only [List.contains_eq_mem, List.mem_filter, decide_eq_true_eq]
+    exact ⟨hin, by simp [hk']⟩
 
 /-- non-vacuity: a two-field object, Partial on one key, then Strict on the result; the base keeps its verdicts -/
 def oBase : Store × OSchema := objConstruct σ0 3 [(1, 100), (2, 101)] []
@@ -293,7 +331,10 @@ def oBase : Store × OSchema := objConstruct σ0 3 [(1, 100), (2, 101)] []
 example :
     let r1 := (applyObjOp fixed oBase.1 oBase.2 (.partialKeys [1])).getD oBase
     let r2 := (applyObjOp fixed r1.1 r1.2 (.mode 1)).getD oBase
-    obsO r2.1.heap oBase.2 = obsO oBase.1.heap oBase.2 ∧
+    let r3 := (applyObjOp fixed r2.1 r1.2 (.requiredKeys [1])).getD oBase
+    obsO r3.1.heap oBase.2 = obsO oBase.1.heap oBase.2 ∧ obsO r3.1.heap r1.2 = obsO r1.1.heap r1.2 ∧
+    (obsO r3.1.heap r3.2).req = some [1] ∧
+    objParse (obsO r3.1.heap r3.2) (fun _ _ => true) (fun _ => false) ⟨[2]⟩ = none ∧
     (obsO r2.1.heap r1.2).exc = some [2] ∧
     objParse (obsO r2.1.heap r1.2) (fun _ _ => true) (fun _ => false) ⟨[2]⟩ = some [2] ∧
     objParse (obsO r2.1.heap oBase.2) (fun _ _ => true) (fun _ => false) ⟨[2]⟩ = none ∧
